@@ -7,11 +7,11 @@ foreign pointers) and EVERY configuration `JitAllocator_new_impl` can produce.  
 the `used` and `stop` bit vectors, `area_used`, the kFlagEmpty / kFlagIncremental flags and the incremental-mode cache to the table of
 spans the caller holds; the proof is by induction over the history (`Inv.step`, Lemmas/JitAllocStep.lean).
 
-Not proved here (only tested by the correspondence + monitor, see notes/C09.md): the pool totals (used / reserved size, block count)
-as sums over blocks, the retention policy (number of empty blocks retained), contents / fill pattern of memory, and the refinement
-"the monitor of Spec/JitAlloc.lean accepts every model run" as one theorem.
+Not proved here (only tested by the correspondence + monitor, see notes/C09.md): contents / fill pattern of memory, the global
+`statistics()` sums over the pools (the per-pool counters are proved exact), and the refinement "the monitor of Spec/JitAlloc.lean
+accepts every model run" as one theorem.
 -/
-import AsmjitVerif.Lemmas.JitAllocReuse
+import AsmjitVerif.Lemmas.JitAllocRetention
 import AsmjitVerif.Spec.JitAlloc
 namespace AsmjitVerif.JitAlloc
 
@@ -166,6 +166,39 @@ theorem query_exact {s : St} (h : Reachable s) {j : Nat} {hd : Handle} (e : s.ta
   · exact o1.symm
   · rw [o2]; congr 1; omega
 
+/-- **Shrink keeps a prefix at least as large as requested**: shrinking a live span to `0 < newSize ≤ size` succeeds, the new size
+is a whole number of granules between the request and the old size, only that handle's size changes (the invariant of the successor
+state says the granules behind it are free again). -/
+theorem shrink_ok {s : St} (h : Reachable s) {j : Nat} {hd : Handle} (e : s.tab[j]? = some hd) (l : hd.live = true)
+    (newSize : Nat) (h0 : 0 < newSize) (hle : newSize ≤ hd.size) :
+    ∃ sz, (step s (.shrink j newSize)).2 = .size sz ∧ newSize ≤ sz ∧ sz ≤ hd.size ∧
+      (step s (.shrink j newSize)).1.tab = setHandleSize s.tab j sz := by
+  have hI := reachable_inv h
+  obtain ⟨b, hb, eb, st, n0, o1, o2⟩ := hI.owned j hd e l
+  have hg := poolGran_pos hI.wf b.pool
+  have hS : TT s b.id b.pool st n0 := ⟨j, hd, e, l, eb.symm, o1, o2⟩
+  have spec := shrink_spec hI.toAInv hb hS newSize h0 _ _ rfl rfl
+  rw [eb, ← o1] at spec
+  obtain ⟨hm, c1, c2, c3⟩ := spec
+  have hceil := alignUp_ge newSize (s.a.cfg.poolGran b.pool) hg
+  unfold alignUp at hceil
+  have hmle : (newSize + s.a.cfg.poolGran b.pool - 1) / s.a.cfg.poolGran b.pool ≤ n0 := by
+    apply Nat.le_of_lt_succ
+    apply Nat.div_lt_of_lt_mul
+    rw [Nat.mul_succ, Nat.mul_comm, ← o2]
+    omega
+  have hne : newSize ≠ 0 := by omega
+  simp only [step, e, l, Bool.not_true, Bool.false_eq_true, if_false, hne]
+  rcases Nat.lt_or_eq_of_le hmle with hlt | heq
+  · obtain ⟨r2, _⟩ := c3 hlt
+    rcases hr : s.a.shrinkImpl hd.blk hd.off newSize with ⟨a', (e' | (_ | sz))⟩ <;> rw [hr] at r2 <;> simp at r2
+    subst r2
+    refine ⟨_, rfl, hceil, ?_, rfl⟩
+    rw [o2]; exact Nat.mul_le_mul_right _ (Nat.le_of_lt hlt)
+  · obtain ⟨r2, _⟩ := c2 heq
+    rcases hr : s.a.shrinkImpl hd.blk hd.off newSize with ⟨a', (e' | (_ | sz))⟩ <;> rw [hr] at r2 <;> simp at r2
+    exact ⟨hd.size, rfl, hle, Nat.le_refl _, (setHandleSize_same e).symm⟩
+
 /-- the window invariant (every free granule inside `[search_start, search_end)`, cached bound on free runs, incremental mode)
 holds for every block of every reachable state -/
 theorem window_all_histories {s : St} (h : Reachable s) : ∀ b ∈ s.a.blocks, BWin b := by
@@ -227,6 +260,39 @@ number of live spans the caller holds; in particular it is 0 once everything has
 theorem allocation_count_exact {s : St} (h : Reachable s) : s.a.stats.allocs = liveCount s.tab := by
   obtain ⟨cfg, ops, hwf, rfl⟩ := h
   exact CInv.finalState (Inv.init cfg hwf) rfl ops
+
+/-- **Pool statistics are exact**: for every pool the counters `statistics()` sums up — block count, reserved area, used area —
+equal the number of blocks of that pool, the sum of their area sizes and the sum of their `area_used` (which `block_accounting_exact`
+ties to the granules that are padding or inside a live span). -/
+theorem pool_totals_exact {s : St} (h : Reachable s) (p : Nat) (hp : p < s.a.cfg.poolCount) :
+    (s.a.pool p).blockCount = agg (wCnt p) s.a.blocks ∧ (s.a.pool p).totalSize = agg (wSize p) s.a.blocks ∧
+    (s.a.pool p).totalUsed = agg (wUsed p) s.a.blocks := by
+  obtain ⟨cfg, ops, hwf, rfl⟩ := h
+  have hP := PInv.finalState (Inv.init cfg hwf) (PInv.init cfg) ops
+  rw [← hP.len] at hp
+  exact ⟨hP.cnt p hp, hP.size p hp, hP.used p hp⟩
+
+/-- **Retention policy**: per pool at most one block is flagged empty, none when kImmediateRelease is set ... -/
+theorem retention_policy {s : St} (h : Reachable s) (p : Nat) (hp : p < s.a.cfg.poolCount) :
+    agg (wEmpty p) s.a.blocks ≤ 1 ∧ (s.a.cfg.immediate = true → agg (wEmpty p) s.a.blocks = 0) := by
+  obtain ⟨cfg, ops, hwf, rfl⟩ := h
+  have hP := PInv.finalState (Inv.init cfg hwf) (PInv.init cfg) ops
+  rw [← hP.len] at hp
+  have := hP.emp p hp
+  exact ⟨by omega, fun hi => hP.imm hi p⟩
+
+/-- ... and a block is flagged empty exactly when it holds no live span (so `retention_policy` counts the blocks without live
+spans: no more empty blocks are retained than the policy allows; on the pinned tree this fails: defect C09-2). -/
+theorem empty_flag_iff_no_spans {s : St} (h : Reachable s) {b : Block} (hb : b ∈ s.a.blocks) :
+    b.empty = true ↔ ∀ st n, ¬ Spans s.tab b.id (s.a.cfg.poolGran b.pool) st n := by
+  constructor
+  · exact (block_accounting_exact h hb).2.1
+  · intro hno
+    obtain ⟨cfg, ops, hwf, rfl⟩ := h
+    have hI := inv_all_histories cfg hwf ops
+    have hE := AEmp.finalState (Inv.init cfg hwf) (by intro x hx; simp [St.init, Alloc.init] at hx) ops
+    obtain ⟨hB, hC⟩ := hI.blk b hb
+    exact hE b hb (used_eq_pad_of_no_spans hB hC hno)
 
 /-- **The allocator reports itself initialised** in every reachable state (every constructed configuration has a non-zero block
 size; C09-1 inverted this test) -/
